@@ -48,7 +48,7 @@ PROPS = {
     },
     "C02": {
         "kani": ["crux_core"],
-        "verus": ["Q", "X"],
+        "verus": ["Q", "X", "L"],
         "kani_timeout_quick": 420,
         "kani_timeout_thorough": 3600,
         "trusted_base": [
@@ -59,11 +59,12 @@ PROPS = {
             "Resolve<Out>, Request<Op> and ResolveSerialized are parametric in Out/Op: proved at Out = u64 and u8 with fully symbolic values",
             "continuations are modelled by recording closures (count, first two values, alive flag); what a real continuation does with the value (send into the task's private channel) is not decided here",
             "in contract harnesses the continuations are zero-sized (Kani contract checking counts freeing a consumed Box as a write outside modifies(self))",
+            "unit L (legacy futures): lock erasure X4 - Arc<Mutex<S>> read as S, X.lock().unwrap() as &mut X, the Weak pointer as (alive, target); std Waker/Context, the deferred send_request closure and the stream's private channel ends are assumed contracts (wake notifies exactly the waker's task; a clone wakes the same task; FIFO channel); Mutex poisoning is not modelled",
         ],
         "not_decided": [
             "that no other task receives the value: each resolve closure owns the only sender of a fresh channel whose receiver goes into the returned future/stream (command/context.rs:52-104) - the constructors are extracted (unit X) but the exclusivity itself is an ownership fact of the Rust type system, not an obligation",
             "unit X proves the stream continuation reports failure exactly when its own futures-mpsc channel refuses the value; that futures-mpsc refuses a value iff the receiving stream is gone is ASSUMED; the one-shot continuation is only proved never to panic",
-            "legacy capability futures (capability/shell_request.rs, shell_stream.rs): mutex + waker + weak reference, not reachable",
+            "legacy capability futures (capability/shell_request.rs, shell_stream.rs): unit L proves each critical section (ShellRequest::poll, ShellStream::poll_next, the two lifted resolve callbacks) for every acquisition state and composes them in protocol lemmas; that each body IS one critical section is by rule X4 (an explicit drop of the guard havocs the state); the rest of request_from_shell/stream_from_shell (building the Arc/Weak pair and the deferred send_request closure) is not extracted",
             "Core::resolve and Bridge::handle_response wrappers (they reach crossbeam channels)",
         ],
     },
